@@ -10,6 +10,8 @@ import json
 import os
 import re
 
+import collections
+
 import framework as fw
 import sx
 from checks import docs, reflib as R, refprobe as P
@@ -117,6 +119,7 @@ def reference_oracle(S, dA, dB, dR):
     for pm, t, n, cont in top_defs(dA, S):
         namesA.setdefault(t, set()).add(n)
     twin_targets = {}
+    exp_count = {}
     stats = {'refs': 0, 'checked': 0, 'holder_absent': 0, 'renamed_targets': 0, 'shared_owner': 0, 'united_owner_other_lists': 0}
     for site, path, target, mi, index, holder, ptype in R.references_in_dump(dB, S, detail=True):
         if mi != 0:
@@ -126,7 +129,7 @@ def reference_oracle(S, dA, dB, dR):
         e = ix.by_key[tuple(site.split('.'))]
         ns = e['ns']
         # where is the holder in the result?  replace the names of renamed definitions along the path
-        pm_r, owner_shared, skip, owner_ns = pm, False, False, None
+        pm_r, owner_shared, skip, owner_ns, united_owner = pm, False, False, None, False
         for dp in by_len:                               # innermost named definition first
             if pm == dp or pm.startswith(dp + '/'):
                 t, nm, cont = defs_b[dp]
@@ -138,6 +141,7 @@ def reference_oracle(S, dA, dB, dR):
                 if r is not None and r != nm:
                     pm_r = dp[:-len(nm) - 1] + r + ']' + pm_r[len(dp):]
                 if t in united_lists and nm in namesA.get(t, ()):
+                    united_owner = True                 # the lists of same-named FUNCTIONs / GROUPs are united as sets
                     rest = pm[len(dp):].lstrip('/').split('/')[0]
                     if rest not in united_lists[t]:
                         skip = True                     # lists that the name-keyed union does not merge
@@ -166,6 +170,15 @@ def reference_oracle(S, dA, dB, dR):
                         % (site, pm, target, expected, got[:4])))
             if owner_shared:
                 twin_targets[expected] = cls
+        elif not owner_shared and not united_owner:
+            # an identifier list may name the element several times: every occurrence has to follow
+            exp_count.setdefault((site, pm_r, pm), collections.Counter())[expected] += 1
+    for (site, pm_r, pm), cnt in exp_count.items():
+        got = collections.Counter(refsR.get((site, pm_r)) or [])
+        for name, k in cnt.items():
+            if got[name] < k:
+                out.append(('site:' + site, '%s at %s: B names %r %d times (after renaming), the result only %d times: %s'
+                            % (site, pm, name, k, got[name], sorted(got.elements())[:6])))
     stats['_twin_targets'] = twin_targets
     return out, stats
 
@@ -221,10 +234,12 @@ def check(tier, seed):
     # ---- stage W: the statement on generated pairs
     n_pairs = 60 if tier == 'quick' else 2500
     pairs = []
+    R.DUP_IN_LISTS = 0.3          # identifier lists of B may name an object twice
     for j in range(n_pairs):
         ov = R.OVERLAPS[j % len(R.OVERLAPS)]
         ta, tb, info = R.gen_merge_pair(rng, S, ov, size=rng.choice(['small', 'small', 'medium']))
         pairs.append((ov, ta, tb))
+    R.DUP_IN_LISTS = 0.0
     twins = P.twin_pairs(rng.randrange(1 << 30), per=1 if tier == 'quick' else 8)
     for k, ta, tb in twins:
         pairs.append(('twin:' + k, ta, tb))
